@@ -62,6 +62,12 @@ class Check:
         if len(self.samples) < 40:
             self.samples.append(s)
 
+    def defer(self, msg):
+        """an obligation that could not be decided; the verdict is taken when the run ends (cli.run_check)"""
+        if not hasattr(self, "deferred"):
+            self.deferred = []
+        self.deferred.append(msg)
+
     def note(self, msg):
         self.info.append(msg)
         self.log("  info:", msg)
